@@ -213,6 +213,19 @@ func keyHexCase(env *keyEnv, b []byte) {
 			keyViolate(ctx, "bytes-transport", "key:"+c.name+":bytes-roundtrip", fmt.Sprintf("byte string %s is read back as %s (%v %s)", hexUp(b), hexUp(got), err, p), line)
 		}
 	}
+	// the binary encoding of the same byte string (every length modulo the 8-byte padding)
+	{
+		tb, p := guard("MarshalTTLV", func() []byte { return ttlv.MarshalTTLV(ttlv.Value{Tag: keyLexTag, Value: append([]byte{}, b...)}) })
+		var val ttlv.Value
+		var err error
+		if p == "" {
+			err, p = guard("UnmarshalTTLV", func() error { return ttlv.UnmarshalTTLV(tb, &val) })
+		}
+		got, _ := val.Value.([]byte)
+		if p != "" || err != nil || !bytes.Equal(got, b) {
+			keyViolate(ctx, "bytes-transport", "key:ttlv:bytes-roundtrip", fmt.Sprintf("byte string %s is read back as %s (%v %s)", hexUp(b), hexUp(got), err, p), line)
+		}
+	}
 	ctx.Add(line, "ok "+keyASCIIHexTok(text), len(b) > 0, "C14,C04")
 	ctx.Res.Count("hex")
 }
